@@ -4,7 +4,7 @@
    certified matrix inverse behind the as_matrix() override of lazy inverses. *)
 From Coq Require Import List Bool Arith ZArith NArith QArith Qcanon String Lia Ring Field.
 From Furax Require Import Base.Pytree Model.Op Model.Algebra Model.Denote Model.Wf Model.Exec Model.Inverse
-  Lemmas.DenoteL Lemmas.Sound.
+  Lemmas.DenoteL Lemmas.Sound Lemmas.MuellerExecL.
 Import ListNotations.
 Local Close Scope Q_scope.
 Local Close Scope Qc_scope.
@@ -585,4 +585,113 @@ Proof.
   destruct (gmat (isem tb n) r) as [M|]; [|discriminate]. destruct (qminv M) as [N|] eqn:EN; [|discriminate].
   exists M, N. repeat split; try assumption. unfold apply_matrix in H.
   apply negb_false_iff in Es. rewrite Es in H. injection H as <-. reflexivity.
+Qed.
+
+(* ------------------------------------------------------------------------------------------ *)
+(* `inverse_r` and the non-recursive `Algebra.inverse` agree unless a block of a block-diagonal
+   operator is itself block-diagonal *)
+Section Agree.
+  Variable K : Type.
+  Variable keqb : K -> K -> bool.
+  Variables (k1 : K) (kmul : K -> K -> K) (kinv : K -> K).
+  Variable fuel : nat.
+  Variable order : list rule_id.
+  Notation op := (op K).
+  Notation inverse_r := (inverse_r K keqb k1 kmul kinv fuel order).
+  Notation inverse_a := (Algebra.inverse keqb k1 kmul kinv fuel order).
+  Notation default_inverse := (default_inverse K keqb k1 kmul fuel order).
+
+  Lemma inverse_agree_nonblock (e : op) : is_bdiag K e = false -> inverse_a e = inverse_r e.
+  Proof.
+    destruct e as [i c si so p|i w x|i s|i k s|i l|i l|i b td l]; intros Hb; try reflexivity.
+    all: destruct b; try discriminate; reflexivity.
+  Qed.
+  Lemma mapM_len A B (f : A -> result B) l : forall l', mapM f l = Ok l' -> List.length l' = List.length l.
+  Proof.
+    induction l as [|a r IH]; intros l' H; cbn in H.
+    - now injection H as <-.
+    - destruct (f a); [|discriminate]. cbn in H. destruct (mapM f r) as [bs|] eqn:E; [|discriminate].
+      cbn in H. injection H as <-. cbn. now rewrite (IH _ eq_refl).
+  Qed.
+  Lemma mapM_ext A B (f g : A -> result B) l : Forall (fun a => f a = g a) l -> mapM f l = mapM g l.
+  Proof. induction 1 as [|a r Ha _ IH]; [reflexivity|]. cbn. now rewrite Ha, IH. Qed.
+
+  Theorem inverse_agrees (e : op) : wfo e = true -> flat_blocks K e = true -> inverse_a e = inverse_r e.
+  Proof.
+    intros Hwf Hflat. destruct (is_bdiag K e) eqn:Eb; [|now apply inverse_agree_nonblock].
+    destruct e as [| | | | | |i b td l]; try discriminate. destruct b; try discriminate.
+    rewrite (inverse_r_bdiag K k1 kmul kinv keqb fuel order). cbn [Algebra.inverse].
+    destruct (forallb (@is_square K) l) eqn:Esq; [|reflexivity].
+    cbn [flat_blocks] in Hflat.
+    match goal with |- bind (mapM ?f l) _ = _ => set (inl := f) end.
+    assert (Hpt : Forall (fun b => inl b = inverse_r b) l).
+    { apply Forall_forall. intros b Hin.
+      rewrite forallb_forall in Esq, Hflat. specialize (Esq b Hin). specialize (Hflat b Hin).
+      apply negb_true_iff in Hflat. subst inl.
+      destruct b as [j c si so p|j w x|j s|j k s|j l0|j l0|j b0 td0 l0]; try reflexivity.
+      - destruct c; try reflexivity; cbn [Inverse.inverse_r]; unfold Inverse.default_inverse; now rewrite Esq.
+      - cbn [Inverse.inverse_r]. destruct (isinst (wcls w) [CAbstractLazyInverse]); [reflexivity|].
+        unfold Inverse.default_inverse. now rewrite Esq.
+      - cbn [Inverse.inverse_r]. unfold Inverse.default_inverse. now rewrite Esq.
+      - cbn [Inverse.inverse_r]. unfold Inverse.default_inverse. now rewrite Esq.
+      - destruct b0; try discriminate; cbn [Inverse.inverse_r]; unfold Inverse.default_inverse; now rewrite Esq. }
+    rewrite (mapM_ext _ _ _ _ _ Hpt). destruct (mapM inverse_r l) as [l'|] eqn:El'; [|reflexivity].
+    cbn [bind]. pose proof (mapM_len _ _ _ _ _ El') as Hlen.
+    cbn [wfo] in Hwf. apply andb_true_iff in Hwf as [Hwf _]. apply andb_true_iff in Hwf as [Hwf _].
+    apply andb_true_iff in Hwf as [Hne Hlt].
+    unfold mk_block. rewrite Hlen, Hlt. cbn [negb].
+    destruct l' as [|b' r']; [|reflexivity]. cbn in Hlen. destruct l; [discriminate|discriminate].
+  Qed.
+End Agree.
+
+(* ------------------------------------------------------------------------------------------ *)
+(* second stage: the executable leaf semantics (Exec.leafsem, quarter-turn angles, no measured
+   matrices) satisfies if_rot_l / if_rot_r on QU rotations: R(a)^T undoes R(a) and conversely *)
+Lemma quad_unit n : Qcplus (Qcmult (fst (quad n)) (fst (quad n))) (Qcmult (snd (quad n)) (snd (quad n))) = k1.
+Proof.
+  unfold quad. destruct (mod4_cases n) as [H|[H|[H|H]]]; rewrite H; apply Qc_is_canon; reflexivity.
+Qed.
+Lemma rot_lists_inv t a : forall q u q1 u1 q2 u2,
+  rot_lists t a q u = Some (q1, u1) -> rot_lists (negb t) a q1 u1 = Some (q2, u2) -> q2 = q /\ u2 = u.
+Proof.
+  induction a as [|an a IH]; intros q u q1 u1 q2 u2 H1 H2.
+  - destruct q, u; cbn in H1; try discriminate. injection H1 as <- <-. cbn in H2. now injection H2 as <- <-.
+  - destruct q as [|qn q], u as [|un u]; cbn [rot_lists] in H1; try discriminate.
+    destruct (cs2 an) as [[c s]|] eqn:E; [|discriminate].
+    destruct (rot_lists t a q u) as [[qs us]|] eqn:R1; [|discriminate]. injection H1 as <- <-.
+    cbn [rot_lists] in H2. rewrite E in H2.
+    destruct (rot_lists (negb t) a qs us) as [[qs2 us2]|] eqn:R2; [|discriminate]. injection H2 as <- <-.
+    destruct (IH _ _ _ _ _ _ R1 R2) as [-> ->].
+    apply cs2_some in E as [_ E]. pose proof (quad_unit (Qnum an)) as Hu. rewrite <- E in Hu. cbn [fst snd] in Hu.
+    assert (Hq : forall z, Qcmult z (Qcplus (Qcmult c c) (Qcmult s s)) = z) by (intros; rewrite Hu; apply Qcmult_1_r).
+    split; f_equal.
+    + transitivity (Qcmult qn (Qcplus (Qcmult c c) (Qcmult s s))); [destruct t; cbn [negb]; ring|apply Hq].
+    + transitivity (Qcmult un (Qcplus (Qcmult c c) (Qcmult s s))); [destruct t; cbn [negb]; ring|apply Hq].
+Qed.
+Lemma rot_value_inv t a x y1 y : rot_value t a x = Some y1 -> rot_value (negb t) a y1 = Some y -> y = x.
+Proof.
+  intros H1 H2. unfold rot_value in H1. split_match H1.
+  - injection H1 as <-. cbn in H2. now injection H2 as <-.
+  - destruct (rot_lists t a a0 a1) as [[q1 u1]|] eqn:R1; [|discriminate]. injection H1 as <-.
+    cbn in H2. destruct (rot_lists (negb t) a q1 u1) as [[q2 u2]|] eqn:R2; [|discriminate]. injection H2 as <-.
+    now destruct (rot_lists_inv _ _ _ _ _ _ _ _ R1 R2) as [-> ->].
+  - destruct (rot_lists t a a1 a2) as [[q1 u1]|] eqn:R1; [|discriminate]. injection H1 as <-.
+    cbn in H2. destruct (rot_lists (negb t) a q1 u1) as [[q2 u2]|] eqn:R2; [|discriminate]. injection H2 as <-.
+    now destruct (rot_lists_inv _ _ _ _ _ _ _ _ R1 R2) as [-> ->].
+  - destruct (rot_lists t a a1 a2) as [[q1 u1]|] eqn:R1; [|discriminate]. injection H1 as <-.
+    cbn in H2. destruct (rot_lists (negb t) a q1 u1) as [[q2 u2]|] eqn:R2; [|discriminate]. injection H2 as <-.
+    now destruct (rot_lists_inv _ _ _ _ _ _ _ _ R1 R2) as [-> ->].
+Qed.
+Ltac strip' H := match type of H with (if negb ?b then None else _) = Some _ => destruct b eqn:?; cbn [negb] in H; [|discriminate H] end.
+Theorem exec_if_rot_l : forall i j sj soj a,
+  winv K (lsem (R K j sj soj a)) (lsem (Wrap i WQURotT (R K j sj soj a))).
+Proof.
+  unfold R. intros i j sj soj a x y1 y H1 H2. rewrite lsem_R in H1. rewrite lsem_RT in H2. strip' H1. strip' H2.
+  exact (rot_value_inv false a x y1 y H1 H2).
+Qed.
+Theorem exec_if_rot_r : forall i j sj soj a,
+  winv K (lsem (Wrap i WQURotT (R K j sj soj a))) (lsem (R K j sj soj a)).
+Proof.
+  unfold R. intros i j sj soj a x y1 y H1 H2. rewrite lsem_RT in H1. rewrite lsem_R in H2. strip' H1. strip' H2.
+  exact (rot_value_inv true a x y1 y H1 H2).
 Qed.
